@@ -141,7 +141,10 @@ def cases(rng, tier):
                        data=("f.bin", mode, b"abc", ops), compare_fs=True)
     # one action value executed at several places of a history (tell / read / write / relative seek / truncate-here)
     for mode in MODES:
-        for shared_op in [('tell',), ('read', 2), ('read', -1), ('write', b"Q"), ('seekcur', 1), ('trunc',), ('seek', 1)]:
+        # (explicit-size truncation and whence-seeks too: seeded change S14l unwrapped the size of a truncate action through a
+        # generator, which is empty the second time the action value is executed)
+        for shared_op in [('tell',), ('read', 2), ('read', -1), ('write', b"Q"), ('seekcur', 1), ('trunc',), ('seek', 1),
+                          ('trunc', 4), ('trunc', 1), ('trunc', 8), ('seek', 2, True), ('read', 0), ('write', b"")]:
             if shared_op[0] == 'read' and mode not in CAN_READ or shared_op[0] in ('write', 'trunc') and mode not in CAN_WRITE:
                 continue
             for between in basic:
